@@ -3137,6 +3137,11 @@ impl ConfigBuilder {
         // across clusters the one that survives depends on HashMap order.
         let mut known_routes: HashSet<(bool, SocketAddr, String, PathRule, Option<String>)> =
             HashSet::new();
+        // A TCP or UDP listener relays to a single cluster: ConfigState refuses
+        // the frontend of a second cluster on an address that is already bound
+        // (dispatch error while the file's requests are applied, the cluster that
+        // wins depending on HashMap order), so refuse the file here.
+        let mut stream_address_owners: HashMap<SocketAddr, String> = HashMap::new();
         for (id, file_cluster_config) in file_cluster_configs.drain() {
             let mut cluster_config =
                 file_cluster_config.to_cluster_config(id.as_str(), &self.expect_proxy_addresses)?;
@@ -3227,8 +3232,21 @@ impl ConfigBuilder {
                     }
                 }
                 ClusterConfig::Tcp(ref mut tcp) => {
-                    //FIXME: verify that different TCP clusters do not request the same address
                     for frontend in tcp.frontends.iter_mut() {
+                        match stream_address_owners.get(&frontend.address) {
+                            Some(owner) if owner != &id => {
+                                return Err(ConfigError::DuplicateFrontend {
+                                    cluster_id: id,
+                                    frontend: format!(
+                                        "{} (TCP/UDP address already bound to cluster '{}')",
+                                        frontend.address, owner
+                                    ),
+                                });
+                            }
+                            _ => {
+                                stream_address_owners.insert(frontend.address, id.clone());
+                            }
+                        }
                         match self.known_addresses.get(&frontend.address) {
                             Some(ListenerProtocol::Http) | Some(ListenerProtocol::Https) => {
                                 return Err(ConfigError::WrongFrontendProtocol(
@@ -4414,6 +4432,47 @@ mod tests {
             result.is_err(),
             "Should reject duplicate listener addresses"
         );
+    }
+
+    #[test]
+    fn tcp_address_shared_by_two_clusters_rejected() {
+        // ConfigState refuses the TCP/UDP frontend of a second cluster on a
+        // bound address: the loader must not accept such a file.
+        let toml_for = |second_address: &str| {
+            format!(
+                r#"
+            command_socket = "/tmp/sozu_test.sock"
+            worker_count = 1
+
+            [clusters.one]
+            protocol = "tcp"
+            frontends = [ {{ address = "127.0.0.1:5001" }} ]
+            backends = [ {{ address = "127.0.0.1:6001" }} ]
+
+            [clusters.two]
+            protocol = "tcp"
+            frontends = [ {{ address = "{second_address}" }} ]
+            backends = [ {{ address = "127.0.0.1:6002" }} ]
+        "#
+            )
+        };
+        let load = |content: String| {
+            let file_config: FileConfig =
+                toml::from_str(&content).expect("Could not parse TOML config");
+            ConfigBuilder::new(file_config, "/tmp/test_config.toml").into_config()
+        };
+
+        assert!(matches!(
+            load(toml_for("127.0.0.1:5001")),
+            Err(ConfigError::DuplicateFrontend { .. })
+        ));
+        let config = load(toml_for("127.0.0.1:5002")).expect("distinct addresses load");
+        let mut state = crate::state::ConfigState::new();
+        for message in config.generate_config_messages().expect("messages") {
+            state
+                .dispatch(&message.content)
+                .expect("a fresh state accepts every request of an accepted file");
+        }
     }
 
     #[test]
